@@ -892,7 +892,7 @@ def _joinnames_exec(cfgs):
         right = pdt.Table(pl.DataFrame({n: [1] for n in c["r"]}), name="t2")
         rec = dict(c=c, out=[], err="", exp=[])
         try:
-            on = "a" if c["onmode"] == "same" else (left.lk == right.rk)
+            on = "a" if c["onmode"] == "same" else (left.a == right.b) if c["onmode"] == "cross" else (left.lk == right.rk)
             kw = dict(suffix=c["usfx"]) if c["usfx"] else {}
             res = left >> join(right, on, how="inner", **kw)
             rec["out"] = [col.name for col in res]
@@ -966,7 +966,7 @@ def phase_joinnames(ctx, phase):
             took_min = any(x.endswith(sfx) for x in r["out"][len(c["l"]):])
             mink["minimal" if took_min else "other"] += 1
     ctx.extra["join_names"] = dict(configurations=len(recs), verdicts=counts, numeric_suffix=mink, canary_rejected=bool(canary),
-                                   universe=dict(left=lu, right=ru, user_suffixes=["", "_t2", "_x"], on=["keys", "same"]))
+                                   universe=dict(left=lu, right=ru, user_suffixes=["", "_t2", "_x"], on=["keys", "same", "cross"]))
     ctx.behaviours += len(recs)
     ctx.replay_stats["steps_new"] = ctx.replay_stats.get("steps_new", 0) + len(recs)
     ctx.replay_stats["nontrivial"] = ctx.replay_stats.get("nontrivial", 0) + sum(1 for r in recs if set(r["c"]["l"]) & set(r["c"]["r"]))
@@ -1124,6 +1124,16 @@ def _argspace_exec(args):
                             r = r >> alias()
                         r = r >> slice_head(n, offset=k)
                     rec["out"] = (r >> export(pdt.Polars()))["rid"].to_list()
+                elif c["verb"] == "mutate":
+                    key = "mut"
+                    if key not in frames:
+                        frames[key] = pl.DataFrame({"a": [1, 2], "b": [10, 20]})
+                        frames[key].write_database("mut", eng, if_table_exists="replace")
+                    t = tbl(bk, key, "mut")
+                    ex = {"a": t.a, "b": t.b, "ab": t.a + t.b, "z": pdt.lit(0)}
+                    df = t >> mutate(**{n: ex[x] for n, x in zip(c["names"], c["exprs"])}) >> arrange(t.a) >> export(pdt.Polars())
+                    rec["names"] = list(df.columns)
+                    rec["out"] = [list(x) for x in df.rows()]
                 elif c["verb"] == "arrange":
                     rows = [tuple(x) for x in c["rows"]]
                     key = ("o", tuple(rows))
@@ -1222,7 +1232,7 @@ def phase_argspace(ctx, phase):
     ucols = phase.get("ucols", ["a", "b", "c"])
     jkeys, jmax = phase.get("jkeys", [0, 1, 2]), phase.get("jmax", 3)
     wmax, amax = phase.get("wmax", 4), phase.get("amax", 3)
-    verbs = phase.get("verbs", ["slices", "union", "joinrows", "win", "agg", "arrange"])
+    verbs = phase.get("verbs", ["slices", "union", "joinrows", "win", "agg", "arrange", "mutate"])
     d = tlc.prepare(f"{ctx.prop}-argspace-{os.getpid()}", ctx.seed)
     common = (f"NsDef == {{{', '.join(map(str, ns))}}}\nKsDef == {{{', '.join(map(str, ks))}}}\nSizesDef == {{{', '.join(map(str, sizes))}}}\n"
               f"UColsDef == {tlc.tla_lit(ucols)}\nJKeysDef == {{{', '.join(map(str, jkeys))}}}\n"
@@ -1271,13 +1281,14 @@ def phase_argspace(ctx, phase):
                     else f"(g, v) rows {c['rows']} (99 = null): {c['op']} {c['mode']}" if c["verb"] == "agg"
                     else (f"(k1, k2) rows {c['rows']} (99 = null): arrange(k1{'.descending()' if c['d1'] else ''}.nulls_{c['n1']}(), "
                           f"k2{'.descending()' if c['d2'] else ''}.nulls_{c['n2']}()){' >> slice_head(2)' if c['take'] else ''}") if c["verb"] == "arrange"
+                    else "mutate(" + ", ".join(f"{n}={x}" for n, x in zip(c["names"], c["exprs"])) + ") on a=[1,2], b=[10,20]" if c["verb"] == "mutate"
                     else f"k={c['keys']} (99 = null){', v null in row 2' if c['vnull'] else ''}: {c['fn']}(arrange=k{'.descending()' if c['desc'] else ''}.nulls_{c['nl']}(){', partition_by=rid%2' if c['part'] else ''})" if c["verb"] == "win"
                     else f"select{c['l']} >> union(select{c['r']}, distinct={c['distinct']})")
             ctx.failures.append(dict(clause=clause, backend=r["backend"], step=0, tainted=False, src=["argspace"], srcidx=0, exc=r["err"] or None,
                                      detail=f"{c['verb']}: {v['verdict']}: {what} -> {r['names']} {r['out']} {r['err']} {r.get('msg', '')}",
-                                     moves=[dict(v={"slices": "slice_head", "joinrows": "join", "win": "mutate", "agg": "summarize", "arrange": "arrange"}.get(c["verb"], "union"), i=1)], heap_obs=[], beh=r))
+                                     moves=[dict(v={"slices": "slice_head", "joinrows": "join", "win": "mutate", "agg": "summarize", "arrange": "arrange", "mutate": "mutate"}.get(c["verb"], "union"), i=1)], heap_obs=[], beh=r))
     uni = dict(slices=dict(n=ns, offset=ks, table_sizes=sizes), union=dict(columns=ucols), joinrows=dict(keys=jkeys, max_rows=jmax),
-               win=dict(max_rows=wmax), agg=dict(max_rows=amax), arrange=dict(max_rows=amax))
+               win=dict(max_rows=wmax), agg=dict(max_rows=amax), arrange=dict(max_rows=amax), mutate=dict(names=["a", "b", "c"], rhs=["a", "b", "a+b", "0"]))
     ctx.extra.setdefault("arg_space", {})["+".join(verbs)] = dict(configurations=len(cfgs), executions=len(recs), verdicts=counts, canary_rejected=bool(canary),
                                                                   universe={v: uni[v] for v in verbs})
     ctx.behaviours += len(recs)
